@@ -220,6 +220,71 @@ static void judge(Ctx& ctx, const Case& c, bool from_replay) {
     } else if (ad > ir.lower) ctx.count("shrink_between_inradius_bounds");
   }
 
+  // ---- the boundary of the result lies inside the band. A result vertex q where the property demands "covered" or
+  // "not covered" (with margin) is only a suspicion: a boundary of zero width (exact spike) misclassifies no point. The
+  // refutation is a concrete point next to q, on the grid of 1/256 units, that is strictly off every result edge, outside
+  // the band, and misclassified (same oracle on the inputs scaled by 256, all exact).
+  auto eval_point = [&](const Paths64& Pin, const Paths64& Rin, const Point64& q, ld scale, ld extra_tol, int& W, bool& onR, ld& sd) -> Expect {
+    offs::Probe pr = jt == JT_BEVEL && !small ? offs::probe(Pin, q, (ad - tm - extra_tol) * scale, (tm + extra_tol) * scale) : offs::probe(Pin, q);
+    Expect ex;
+    if (small) ex = pr.on || pr.d <= (tm + extra_tol) * scale ? EX_NONE : (pr.w != 0 ? EX_IN : EX_OUT);
+    else ex = expectation(jt, delta * scale, (tm + extra_tol) * scale, k, conv, pr);
+    sd = offs::signed_dist(pr) / scale;
+    onR = false; W = 0;
+    if (ex != EX_NONE) W = winding(Rin, q, &onR);
+    return ex;
+  };
+  {
+    const int64_t SC = 256;
+    Paths64 Ps, Rs;     // scaled copies, built on first use
+    long long bv = 0, suspicious = 0;
+    for (const Path64& rp : R) {
+      size_t n = rp.size();
+      for (size_t i = 0; i < n; ++i) {
+        const Point64& q = rp[i];
+        int W0; bool on0; ld sd0;
+        ++bv;
+        if (eval_point(P, R, q, 1, 0, W0, on0, sd0) == EX_NONE) continue;
+        ++suspicious;
+        if (Ps.empty()) { Ps = P; Rs = R; gen::scale_paths(Ps, SC); gen::scale_paths(Rs, SC); }
+        // candidate points: along the bisector of the two result edges at q (both ways), and 8 compass points
+        const Point64& a = rp[(i + n - 1) % n]; const Point64& b = rp[(i + 1) % n];
+        std::vector<std::pair<ld, ld>> cand;
+        ld ax = (ld)a.x - (ld)q.x, ay = (ld)a.y - (ld)q.y, bx = (ld)b.x - (ld)q.x, by = (ld)b.y - (ld)q.y;
+        ld al = sqrtl(ax * ax + ay * ay), bl = sqrtl(bx * bx + by * by);
+        if (al > 0 && bl > 0) {
+          ld ux = ax / al + bx / bl, uy = ay / al + by / bl, ul = sqrtl(ux * ux + uy * uy);
+          if (ul < 1e-9L) { ux = -ay / al; uy = ax / al; ul = 1; }
+          ux /= ul; uy /= ul;
+          for (ld r : { 0.25L, 0.5L, 1.0L, 2.0L }) { cand.push_back({ r * ux, r * uy }); cand.push_back({ -r * ux, -r * uy }); }
+        }
+        for (int d = 0; d < 8; ++d) cand.push_back({ 0.375L * cosl(d * offs::kPiL / 4), 0.375L * sinl(d * offs::kPiL / 4) });
+        for (auto& cd : cand) {
+          Point64 ps(q.x * SC + (int64_t)llroundl(cd.first * SC), q.y * SC + (int64_t)llroundl(cd.second * SC));
+          int W; bool onR; ld sd;
+          Expect ex = eval_point(Ps, Rs, ps, (ld)SC, 0, W, onR, sd);
+          if (ex == EX_NONE || onR) continue;
+          if (ex == EX_IN ? W == sigma : W == 0) continue;
+          int W2; bool on2; ld sd2;
+          bool small_excess = eval_point(Ps, Rs, ps, (ld)SC, 1.5L, W2, on2, sd2) == EX_NONE;
+          bool at_input_vertex = false;
+          for (const Path64& ip : P) for (const Point64& v : ip) if (v == q) at_input_vertex = true;
+          char pb[160]; snprintf(pb, sizeof pb, "(%lld%+lld/256, %lld%+lld/256)", (long long)q.x, (long long)(ps.x - q.x * SC), (long long)q.y, (long long)(ps.y - q.y * SC));
+          std::vector<std::string> tags = { ex == EX_IN ? "not_covered" : "covered_beyond", small ? "small_delta" : dirtag, kJtName[jt],
+            at_input_vertex ? "spike_to_input_vertex" : (small_excess ? "not_at_input_vertex_excess_le_1.5" : "not_at_input_vertex_excess_gt_1.5") };
+          ctx.violation("C06.boundary", tags, c, std::string("next to result vertex ") + ptstr(q) + (at_input_vertex ? " (= an input vertex)" : "") + " the point " + pb +
+            " has signed distance " + ldstr(sd) + " to the input, delta " + ldstr(delta) + " t " + ldstr(t) + " k " + ldstr(k) + ": must " + (ex == EX_IN ? "" : "not ") +
+            "be covered, result winding " + std::to_string(W) + ", join " + kJtName[jt] + " ml " + ldstr(ml) + " arc_tol " + ldstr(at) +
+            (small_excess ? " (inside the band widened by 1.5)" : " (outside the band even when widened by 1.5)"));
+          return;
+        }
+        ctx.count("result_vertices_outside_band_without_misclassified_neighbour");
+      }
+    }
+    ctx.count("result_vertices_checked", bv);
+    ctx.count("result_vertices_outside_band", suspicious);
+  }
+
   // ---- region samples
   Rng srng(c.hash(), 0x5a17);
   Samples sp;
@@ -240,14 +305,15 @@ static void judge(Ctx& ctx, const Case& c, bool from_replay) {
         "winding number of the result at " + ptstr(q) + " (outside the tolerance band) is " + std::to_string(W) + ", only 0 and " + std::to_string(sigma) + " are possible");
       return;
     }
-    bool bad = onR || (ex == EX_IN ? W != sigma : W != 0);
+    if (onR) { ctx.count("samples_on_a_result_edge_not_judged"); continue; }   // boundaries are judged by the vertex check above
+    bool bad = ex == EX_IN ? W != sigma : W != 0;
     if (!bad) continue;
     ld sd = offs::signed_dist(pr);
     std::string detail = "at " + ptstr(q) + " signed distance " + ldstr(sd) + " delta " + ldstr(delta) + " t " + ldstr(t) + " k " + ldstr(k) +
-      (ex == EX_IN ? ": must be covered" : ": must not be covered") + ", result winding " + std::to_string(W) + (onR ? " (on a result edge)" : "") +
+      (ex == EX_IN ? ": must be covered" : ": must not be covered") + ", result winding " + std::to_string(W) +
       " join " + kJtName[jt] + " ml " + ldstr(ml) + " arc_tol " + ldstr(at);
     std::vector<std::string> tags = { ex == EX_IN ? "not_covered" : "covered_beyond", small ? "small_delta" : dirtag };
-    if (onR) tags.push_back("sample_on_result_edge");
+    { int W2; bool on2; ld sd2; tags.push_back(eval_point(P, R, q, 1, 1.5L, W2, on2, sd2) == EX_NONE ? "excess_le_1.5" : "excess_gt_1.5"); }
     if (jt == JT_BEVEL && !small && (pr.rect_left || pr.rect_right)) tags.push_back("in_sweep_rectangle");
     if (overshrink) tags.push_back("overshrink");
     ctx.violation(small ? "C06.small_delta" : claim, tags, c, detail);
